@@ -737,7 +737,7 @@ class Builtins:
         raise Unsupported(f'list.remove at {ex.where(node)}')
 
     def contains(self, ex, a, b, p, node):
-        if isinstance(b, VTuple) or isinstance(b, VRange) or isinstance(b, VConstDict) or isinstance(b, VStr):
+        if isinstance(b, (VTuple, VFrozenSet, VRange, VConstDict, VStr)):
             return ex.lift(p, ops.contains(b, a))
         if isinstance(b, VGen):
             return self.gen_contains(ex, a, b, p, node)
